@@ -493,6 +493,16 @@ func (g *Gen) next2(m *Model) Step {
 			if c.Body != nil || again.Mode == "bodystdin" {
 				again.Body = sp(g.text("body"))
 			}
+			if it := m.Items[m.Resolve(c.ID)]; it != nil && g.R.Chance(1, 2) {
+				// ... or edited BACK to what it was before this edit (A, B, A):
+				// an edit all the same, with its own updated_at
+				if c.Title != nil && strings.TrimSpace(it.Title) != "" {
+					again.Title = sp(it.Title)
+				}
+				if again.Body != nil && it.Body != "" {
+					again.Body = sp(it.Body)
+				}
+			}
 			g.queue = append(g.queue, Step{Cmd: &again})
 			if g.R.Chance(1, 3) {
 				g.queue = append(g.queue, Step{Cmd: &Cmd{Op: "compact"}}, Step{Cmd: &Cmd{Op: "show", ID: c.ID}})
@@ -658,7 +668,10 @@ func (g *Gen) fileOp() *FileOp {
 	return &FileOp{Path: p, Kind: "file", Content: fmt.Sprintf("content %d %s\n", g.R.Intn(1000), g.text("body"))}
 }
 
-var goodFiles = []string{"out/r0.md", "out/r1.md", "docs/report0.txt", "r0.txt", "r1.txt", "deep/er/est/f0.log", "résumé 0.md", "out/空0.txt"}
+var goodFiles = []string{"out/r0.md", "out/r1.md", "docs/report0.txt", "r0.txt", "r1.txt", "deep/er/est/f0.log", "résumé 0.md", "out/空0.txt",
+	// a path long enough that the result event (path, file_url, hash, summary)
+	// is longer than the small buffers a tail scan might use
+	"deep/er/est/" + strings.Repeat("a-rather-long-directory-name/", 9) + "final-summary-of-measurements.md"}
 
 func (g *Gen) addResult(c *Cmd) {
 	p := goodFiles[g.R.Intn(len(goodFiles))]
